@@ -43,6 +43,10 @@ Ops(M) ==
   \cup {[Op("add_assign") EXCEPT !.b = Fresh(M.r + 1, M.c)], [Op("sub_assign") EXCEPT !.b = Fresh(M.r, M.c + 1)]}
   \cup {[Op("mul_assign") EXCEPT !.s = -2], [Op("div_assign") EXCEPT !.s = -1]}
   \cup {[Op("add_scalar_assign") EXCEPT !.s = 3], [Op("sub_scalar_assign") EXCEPT !.s = 5]}
+  \* the object itself consumed by a by-value operator, the result taking its place
+  \cup {[Op("add_assign") EXCEPT !.b = Fresh(M.r, M.c), !.form = "into"], [Op("mul_assign") EXCEPT !.s = 3, !.form = "into"], Op("neg_assign")}
+  \cup {[Op("matmul_assign") EXCEPT !.b = Fresh(M.c, k)] : k \in Dims}
+  \cup {[Op("matmul_assign") EXCEPT !.b = Fresh(M.c + 1, 1)]}
 
 Init == /\ \E r \in Dims, c \in Dims : m0 = Distinct(r, c) /\ (FullInit \/ (r = MaxDim /\ c = MaxDim))
         /\ m = m0 /\ hist = <<>>
